@@ -151,3 +151,83 @@ func vhBuildersPartial() {
 		vReach("generated")
 	}
 }
+
+// vhValidityHostile: C20 for the validity block with values the schema lets
+// through (`duration` is any run of digits before y / m / d, the dates any
+// digits in the date pattern): huge year, month and day counts (also beyond
+// int64), day counts that push the end past year 9999 or before year 0,
+// dates at the edges of the calendar. Reading the configuration, hashing it
+// (as planning does) and generating the certificate return an error or a
+// result; a Go panic is the violation.
+func vhValidityHostile() {
+	vClockFixed(1709640000)
+	vLocalZone(0)
+	cases := []CertValidity{
+		{From: "2020-01-01", Duration: "9000y"},
+		{From: "2020-01-01", Duration: "7979y"},
+		{From: "2020-01-01", Duration: "7980y"},
+		{From: "2020-01-01", Duration: "99999999y"},
+		{From: "2020-01-01", Duration: "99999999999999999999y"},
+		{From: "2020-01-01", Duration: "120000m"},
+		{From: "2020-01-01", Duration: "99999999999999999999m"},
+		{From: "2020-01-01", Duration: "4000000d"},
+		{From: "2020-01-01", Duration: "99999999999999999999d"},
+		{From: "2020-01-01", Duration: "9223372036854775807y9223372036854775807m9223372036854775807d"},
+		{Duration: "9000y"},
+		{Duration: "0y0m0d"},
+		{From: "9999-12-31", Duration: "1d"},
+		{From: "9999-12-31", Until: "9999-12-31"},
+		{From: "0000-01-01", Until: "0000-01-02"},
+		{From: "0001-01-01", Duration: "1y"},
+		{Until: "0000-01-01"},
+		{Until: "9999-12-31"},
+		{From: "2020-13-01", Until: "2021-01-01"},
+		{From: "2020-00-00", Until: "2021-01-01"},
+		{From: "2020-02-30", Duration: "1y"},
+	}
+	// counts that do not fit an int are out-of-range values that pass the
+	// schema: they have to be reported as a configuration error
+	beyondInt := map[int]bool{4: true, 6: true, 8: true}
+	k := vChoose("case", len(cases))
+	if one := vParam("CASE", -1); one >= 0 {
+		vAssume(k == one)
+	}
+	inProfile := vChoose("inProfile", 2) == 1
+	cfg := CertConfig{Subject: "CN=x", SerialNumber: 4711}
+	var prof *config.CertificateProfile
+	if inProfile {
+		p, err := initProfile(Profile{ProfileName: "p", Version: 1, Validity: cases[k]})
+		if err != nil {
+			vReach("error")
+			return
+		}
+		prof = p
+		cfg.Profile = "p"
+	} else {
+		cfg.Validity = cases[k]
+	}
+	content, err := initCertificate(cfg)
+	if err != nil {
+		vReach("error")
+		return
+	}
+	vAssert(!beyondInt[k], "a duration count beyond the integer range was accepted instead of being reported as a configuration error")
+	if prof != nil {
+		content, err = config.Merge(*prof, *content)
+		if err != nil {
+			vReach("error")
+			return
+		}
+	}
+	_ = content.HashSum() // what planning does with every configuration
+	ctx, err := generator.BuildCertBody(*content, nil, nil)
+	if err != nil {
+		vReach("error")
+		return
+	}
+	if _, err = generator.SignCertBody(ctx, *content); err != nil {
+		vReach("error")
+		return
+	}
+	vReach("generated")
+}
